@@ -21,9 +21,11 @@ def main():
     prop, x = sys.argv[1], sys.argv[2]
     checks = sys.argv[3:] or [prop]
     tier = os.environ.get('SEED_TIER', 'quick')
-    src = f'/tmp/seed/{prop}/out/{x}'
+    rnd = os.environ.get('SEED_ROUND', '1')
+    sid = f'{prop}-{x}' if rnd == '1' else f'{prop}-r{rnd}{x}'
+    src = f'/tmp/seed/{prop}/out/{x}' if rnd == '1' else f'/tmp/seed{rnd}/out/{prop}/{x}'
     if not os.path.isdir(src):
-        src = f'/verif/seeded/{prop}-{x}'
+        src = f'/verif/seeded/{sid}'
     patch = os.path.join(src, 'patch.diff')
     demo = os.path.join(src, 'demo_test.go')
     meta = json.load(open(os.path.join(src, 'meta.json')))
@@ -66,7 +68,7 @@ def main():
             run(['git', '-C', '/repo', 'clean', '-fdq'])
             run(['git', 'checkout', '--', 'evidence'], cwd='/verif')
             shutil.rmtree('/verif/replay', ignore_errors=True)
-    dst = f'/verif/seeded/{prop}-{x}'
+    dst = f'/verif/seeded/{sid}'
     os.makedirs(dst, exist_ok=True)
     if os.path.abspath(src) != os.path.abspath(dst):
         shutil.copy(patch, dst)
@@ -77,11 +79,11 @@ def main():
             old = json.load(open(os.path.join(dst, 'meta.json')))
         except Exception:
             old = {}
-    m = {'id': f'{prop}-{x}', 'breaks_property': prop, 'summary': meta.get('summary'), 'needs': meta.get('needs'), 'files': meta.get('files'),
+    m = {'id': sid, 'breaks_property': prop, 'summary': meta.get('summary'), 'needs': meta.get('needs'), 'files': meta.get('files'),
          'source': 'independent sub-agent given only the property text and a scratch worktree',
          'confirmation': res, 'checks_run': dict(old.get('checks_run', {}), **results)}
     json.dump(m, open(os.path.join(dst, 'meta.json'), 'w'), indent=1)
-    print(f"{prop}-{x} valid={valid} " + ' '.join(f"{c}:{r['verdict']}({r['wall_s']}s)" for c, r in results.items()))
+    print(f"{sid} valid={valid} " + ' '.join(f"{c}:{r['verdict']}({r['wall_s']}s)" for c, r in results.items()))
     for c, r in results.items():
         if r['first_violation']:
             print('   ', r['first_violation'][:300])
